@@ -96,7 +96,8 @@ pub fn run(ctx: &Ctx, rep: &mut Reporter) -> Json {
         } else {
             gen_input(ctx, case_idx * 4 + (case_idx % 3), &mut rng)
         };
-        let r = guarded(|| one_mapping(&text, &mut rng, rep, case_idx, ctx, &mut sigs));
+        let big_ok = kind != "ast-huge-group"; // hundreds of frames per line there: a 24 000-line trace would expand to millions
+        let r = guarded(|| one_mapping(&text, &mut rng, rep, case_idx, ctx, &mut sigs, big_ok));
         match r {
             Ok(o) => overlaps_total += o,
             Err(p) => panic_violation(rep, case_idx, "panic", &p, mapping_detail(&text[..text.len().min(3000)], &kind)),
@@ -107,11 +108,11 @@ pub fn run(ctx: &Ctx, rep: &mut Reporter) -> Json {
     extra
 }
 
-fn one_mapping(text: &[u8], rng: &mut Rng, rep: &mut Reporter, case_idx: u64, ctx: &Ctx, sigs: &mut std::collections::HashSet<u64>) -> u64 {
+fn one_mapping(text: &[u8], rng: &mut Rng, rep: &mut Reporter, case_idx: u64, ctx: &Ctx, sigs: &mut std::collections::HashSet<u64>, big_ok: bool) -> u64 {
     // ---- the mapping itself, shared cold (by reference and through clones)
     {
         let (nt, repeats, rounds) = if ctx.variant == "miri" { (3, 1, 1) } else { (*rng.pick(&[2usize, 4, 8, 16]), 4, 3) };
-        let window = &text[..text.len().min(if ctx.slow() { 4000 } else { 400_000 })];
+        let window = &text[..text.len().min(if ctx.slow() { 1200 } else { 400_000 })];
         for _ in 0..repeats {
             let (alone, got, ov) = cur::mapping_shared_answers(window, nt, rounds);
             rep.count("mapping_calls_overlapping_in_time", ov);
@@ -165,7 +166,7 @@ fn one_mapping(text: &[u8], rng: &mut Rng, rep: &mut Reporter, case_idx: u64, ct
     // every thread remaps right after the barrier: whatever a call accumulates while it
     // runs (counters, budgets, scratch buffers) must be its own, not the handle's.
     let mut big_at = None;
-    if ctx.variant != "miri" && ctx.variant != "tsan" && case_idx % 8 == 1 && !classes.is_empty() {
+    if big_ok && ctx.variant != "miri" && ctx.variant != "tsan" && case_idx % 8 == 1 && !classes.is_empty() {
         let mut t = String::with_capacity(2_000_000);
         t.push_str("java.lang.StackOverflowError: deep\n");
         let mut n = 0;
